@@ -291,6 +291,30 @@ theorem evalView_coef_agree [Arith α] (t : Fits.Table) (kn : UInt64 → α) (cf
   have : 0 ≤ j ∧ j < (t.coef.length : Int) := ⟨h1, by omega⟩
   simp only [Table.evalView, this, and_self, if_true]
 
+/-! ## the made-up extents index inside the knot vectors -/
+
+theorem getElem?_eq_some_getD {α} (l : List α) (i : Nat) (d : α) (h : i < l.length) : l[i]? = some (l.getD i d) := by
+  simp [List.getD_eq_getElem?_getD, List.getElem?_eq_getElem h]
+
+theorem defaultExtentsChk_eq (order : List Nat) (knots : List (List UInt64)) (hk : knots.length = order.length)
+    (hd : ∀ i, i < order.length → 2 * order.getD i 0 + 2 ≤ (knots.getD i []).length) :
+    defaultExtentsChk order knots = some (defaultExtents order knots) := by
+  unfold defaultExtentsChk defaultExtents
+  have hl : ∀ i ∈ List.range order.length, i < order.length := fun i hi => List.mem_range.mp hi
+  generalize List.range order.length = l at hl
+  induction l with
+  | nil => rfl
+  | cons i l ih =>
+    have hi := hl i (by simp)
+    have ih' := ih (fun j hj => hl j (by simp [hj]))
+    have hlen := hd i hi
+    simp only [List.foldr_cons, List.flatMap_cons, ih']
+    rw [getElem?_eq_some_getD order i 0 hi, getElem?_eq_some_getD knots i [] (by omega)]
+    simp only
+    rw [getElem?_eq_some_getD (knots.getD i []) (order.getD i 0) 0 (by omega),
+      getElem?_eq_some_getD (knots.getD i []) ((knots.getD i []).length - order.getD i 0 - 1) 0 (by omega)]
+    rfl
+
 /-! ## the well-formedness the evaluation-correctness theorems assume (`Proofs/Bridge.lean`, `Proofs/EvalSpec.lean`) -/
 section field
 variable {β : Type} [Field β] [LinearOrder β]
